@@ -282,6 +282,10 @@ def cases(M):
             touches_midnight = (lo // DAY_US != (hi - 1) // DAY_US) or lo % DAY_US == 0 or hi % DAY_US == 0
             offs = [-g - 1, -1, 0, g // 2, g - 1, g, g + 3600 * US, -7 * 3600 * US, 9 * 3600 * US, -30 * 3600 * US, 30 * 3600 * US]
             picks = offs if thorough else (r.sample(offs, 4) if touches_midnight else r.sample(offs, 1))
+            if oa > ob and touches_midnight:
+                # the value sits on ANOTHER day of the week at a time of day that this gap skips on its own day
+                # (a jump that carries the time of day to the boundary day lands in the gap)
+                picks = list(picks) + [g // 2 + k * DAY_US for k in ((-1, -3, 2) if not thorough else (-1, -2, -3, -5, 1, 2, 4, 6))]
             for d in picks:
                 u = t * US + d
                 if thorough:
